@@ -23,7 +23,7 @@ CLAIMED = {
          "who-may-call/who-may-write + path-sensitive ledger balancing by expression identity (SSA)"),
  "C14": ("evidence gate: a key is implicated only after both certificates verified, the views are equal in every field, payloads differ, the phase is above PROPOSE, evidence is fresh and the signer bit is set in both bitmaps; proposer slash lists are re-derived before the block is applied; index-then-slash once per (address,height); the per-committee cap is consulted before any burn",
          "path-sensitive must-pass-through (SSA) + field coverage of View.Equals + operand provenance + writer/reader key agreement"),
- "C20": ("order-book escrow clause only: account leg and pool leg carry the same amount expression on every success path, the pool id is chainId + the kind's addend on both sides, the stored order carries that amount; payout is followed by deletion of the same order; locked orders cannot be edited or deleted",
+ "C20": ("order-book escrow clause only: account leg and pool leg carry the same amount expression on every success path, the pool id is chainId + the kind's addend on both sides, the stored order carries that amount; payout is followed by deletion of the same order; locked orders cannot be edited or deleted; a pool object whose Amount was changed is persisted with SetPool before the function returns ok",
          "path-sensitive ledger balancing by expression identity + provenance of pool ids + pairing"),
  "C01": ("agreement itself is NOT decided; decided are the HotStuff safety disciplines: who may write the lock and under which established conditions, every vote/self-commit only after the phase's validation (SAFE-NODE unless unlocked, ValidateProposal, proposer/proposal check, lock before precommit vote), +2/3 comparisons and every read of the threshold, one vote per validator, locks kept across root-chain resets, attached HighQC never accepted unverified",
          "who-may-write + path-sensitive must-pass-through (SSA) with guard refinement + enumeration of vote/threshold sites"),
